@@ -603,11 +603,11 @@ func c14Run(T int, maxConfs int, regs int, lazy bool, two bool) {
 	w.restart(uint32(numConfs), hint)
 }
 
-func VerifC14Conf3()     { c14Run(3, 3, 3, false, false) }
-func VerifC14Conf4()     { c14Run(4, 3, 4, false, false) }
-func VerifC14Conf4Head() { c14Run(4, 3, 2, false, false) } // registration before the first or second operation
-func VerifC14Conf5()     { c14Run(5, 3, 5, false, false) }
-func VerifC14Lazy3()     { c14Run(3, 3, 3, true, false) }
-func VerifC14Lazy4()     { c14Run(4, 3, 4, true, false) }
-func VerifC14Two3()      { c14Run(3, 3, 3, false, true) }
-func VerifC14Two4()      { c14Run(4, 3, 4, false, true) }
+func VerifC14Conf3() { c14Run(3, 3, 3, false, false) }
+func VerifC14Conf4() { c14Run(4, 3, 4, false, false) }
+func VerifC14Conf5() { c14Run(5, 3, 5, false, false) }
+func VerifC14Conf6() { c14Run(6, 3, 6, false, false) }
+func VerifC14Lazy3() { c14Run(3, 2, 3, true, false) } // numConfs <= 2
+func VerifC14Lazy4() { c14Run(4, 3, 4, true, false) }
+func VerifC14Two3()  { c14Run(3, 3, 3, false, true) }
+func VerifC14Two4()  { c14Run(4, 3, 2, false, true) } // first client registers before the first or second operation
